@@ -1,7 +1,8 @@
 /-
 Tie of `Generated/LutAst.lean` (tools/gen_lut_ast.py: `buildLookupTables` from clang's AST) to the hand model `Gauss.buildLUT`.
 PROVED: the generated depth-1 texts are DEFINITIONALLY the parameterised form `buildG1` (`build_*_eq_G := rfl`, re-checked on every run);
-the two inner loops of depth 1 equal the model's loops for every fuel, table, barrier list (`fill_sim`, `run1_sim`).  PARTIAL: see the end.
+the two inner loops of depth 1 equal the model's loops for every fuel, table, barrier list (`fill_sim`, `run1_sim`).  The whole-function
+equalities are in Proofs/LutAstEq2.lean (depth 1) and Proofs/LutAstEq3.lean (depth 2): see the end.
 -/
 import NflVerif.Generated.LutAst
 import NflVerif.Proofs.GaussAstEq
@@ -300,16 +301,22 @@ theorem leS64_enc (a b : Int) (ha : -(2 ^ 63 : Int) ≤ a) (ha' : a < 2 ^ 63) (h
   apply decide_eq_decide.mpr
   omega
 
-/- FULL STATEMENT (NOT PROVED in the time available; the inner loops above are):
-theorem buildG1_eq (ob nb W : Nat) (cout : Nat → Nat) (hc : CoutOK ob cout) (bs : List Str) (rc : Int) (hnb : nb = bs.length)
-    (hnb1 : 1 ≤ nb) (hn31 : nb < 2 ^ 31) (hsm : ∀ s ∈ bs, Small s) (hW : W < 2 ^ 31)
-    (hrc : -(2 ^ 31 : Int) ≤ rc) (hrc' : rc < 2 ^ 31) (hv0 : -(2 ^ 31 : Int) ≤ v0Of nb rc) (hvm : vmaxOf nb rc < 2 ^ 31) :
-    (buildG1 cout nb W (enc 32 rc) bs).map (fun r => r.2.2) = (buildLUT1 W bs rc).map (fun T => encA ob T.t1)
-and the same for depth 2 (`lu_table`, `lu_table2` against `buildLUT2`).  Missing: the simulation of the OUTER loop (`outer1Body` against
-`Gauss.outer1`, invariant `b_index ≤ nb ∧ val = v₀ + b_index`, which keeps the 64-bit comparison `val <= vmax` in range) — a proof
-along the lines of `run1_sim` was written but its kernel check did not finish in the time budget (see the NOTE above on `b + 2^63`);
-and the depth-2 loops (`runLoop2`, `inner2`, `outer2`).  What IS checked for the whole function: the `decide` examples of
-Properties/C10LutAst.lean (both depths, generated = `buildLUT` cell by cell) and the live comparison of the hand model with the real
-tables on every run of the check. -/
+/- WHOLE FUNCTION (PROVED, in the two files that import this one):
+* Proofs/LutAstEq2.lean, depth 1:
+  theorem buildG1_eq (ob nb W : Nat) (cout : Nat → Nat) (hc : CoutOK ob cout) (bs : List Str) (rc : Int) (hnb : nb = bs.length)
+      (hnb1 : 1 ≤ nb) (hn31 : nb < 2 ^ 31) (hsm : ∀ s ∈ bs, Small s) (hW : W < 2 ^ 31)
+      (hrc : -(2 ^ 31 : Int) ≤ rc) (hrc' : rc < 2 ^ 31) (hv0 : -(2 ^ 31 : Int) ≤ v0Of nb rc) (hvm : vmaxOf nb rc < 2 ^ 31) :
+      (buildG1 cout nb W (enc 32 rc) bs).map (fun r => r.2.2) = (buildLUT1 W bs rc).map (fun T => encA ob T.t1)
+  via `v0G_eq` / `vmaxG_eq` (the 32-bit `int` arithmetic of the `for` header), `outer1Body_eq` (one pass of the generated outer body =
+  `step1`, the model's body, using `fill_sim` and `run1_sim`), `step1_inv` (invariant `b_index ≤ nb ∧ val = v₀ + b_index`, which keeps the
+  64-bit comparison `val <= vmax` in range) and `outer1_sim` (induction on the fuel).
+* Proofs/LutAstEq3.lean, depth 2: the parameterised text `buildG2` (rfl ties `build_u16_i64_2_eq_G`, `build_u8_u64_2_eq_G`), `run2_sim`
+  (`runLoop2`), `inner2Body_eq` / `inner2_sim` (`inner2`, through `istep2`), `outer2Body_eq` / `outer2_sim` (`outer2`, through `step2`), and
+  theorem buildG2_eq (same hypotheses) :
+      (buildG2 cout nb W (enc 32 rc) bs).map (fun r => (r.2.2.1, r.2.2.2)) = (buildLUT2 W bs rc).map (fun T => (encA ob T.t1, encR ob T.t2))
+How the kernel blow-up of the first attempt (see the NOTE above on `b + 2^63`) is avoided: the generated bodies are exposed as bind chains by
+`rfl` lemmas (`outer1Body_def`, …), conditions are computed as stand-alone equations through `leS64_enc` / `ltS64_small`, `whileFuel` terms are
+`generalize`d before any case split, and the model's loop bodies are factored out (`step1`, `istep2`, `step2`) so that each loop needs one
+body lemma, one invariant lemma and one short induction.  Each file builds in a few seconds. -/
 
 end Nfl.Gen
